@@ -13,8 +13,7 @@ rm -rf "$h"; mkdir -p "$h"
 sed -i "s#/repo/crates#$wt/crates#g" "$h/Cargo.toml"
 : > "$out/checks.txt"
 for p in $props; do
-  (cd /verif && VERIF_HARNESS_DIR="$h" VERIF_SCRATCH_REPLAYS=1 ./check "$p" --tier quick > "/verif/.work/seed_${id}_$p.out" 2>&1; rc=$?; echo "$p rc=$rc violations=$(grep -c '^VIOLATION' /verif/.work/seed_${id}_$p.out)" >> "$out/checks.txt"; grep -A1 '^VIOLATION' "/verif/.work/seed_${id}_$p.out" | sed -n 2p | cut -c1-260 >> "$out/checks.txt")
+  (cd /verif && VERIF_HARNESS_DIR="$h" VERIF_WORK_DIR="/verif/.work/w_seed_$id" VERIF_SCRATCH_REPLAYS=1 ./check "$p" --tier quick > "/verif/.work/seed_${id}_$p.out" 2>&1; rc=$?; echo "$p rc=$rc violations=$(grep -c '^VIOLATION' /verif/.work/seed_${id}_$p.out)" >> "$out/checks.txt"; grep -A1 '^VIOLATION' "/verif/.work/seed_${id}_$p.out" | sed -n 2p | cut -c1-260 >> "$out/checks.txt")
 done
-rm -rf "$h"
-cd /verif && git checkout -- evidence 2>/dev/null
+rm -rf "$h" "/verif/.work/w_seed_$id"
 cat "$out/checks.txt"
